@@ -255,6 +255,13 @@ def stil_case(res, case):
                                     g = int(got[pos[n], i])
                                     if g != exp:
                                         res.violation(key + '/loc-pi', case, f'tests_loc()[{n}, pattern {i}] = {ref.CHARS[g]} expected {ref.CHARS[exp]} (launch {p["launch_pi"]}, capture {p["capture_pi"]}, _pi order {pi_order})\n{text}')
+                                elif a in (Z, O, U) and b2 in (Z, O, U) and fill is None:
+                                    # documented combination rule: both unassigned -> unassigned, otherwise any unknown side -> unknown
+                                    exp = U if (a == U and b2 == U) else X
+                                    g = int(got[pos[n], i])
+                                    if g != exp:
+                                        res.violation(key + '/loc-pi-unassigned', case, f'tests_loc()[{n}, pattern {i}] = {ref.CHARS[g]} expected {ref.CHARS[exp]} (launch {ref.CHARS[a]}, capture {ref.CHARS[b2]})\n{text}')
+                                    res.count('loc_pi_unassigned')
                         for n in po_order:
                             if int(got[pos[n], i]) != U:
                                 res.violation(key + '/loc-po', case, f'tests_loc() assigns output {n}')
@@ -408,6 +415,16 @@ def run_design(res, d, tier, seed, shard=0, nshards=1):
             q['capture_pi'] = ''.join('P' if n == 'clk' else ('0' if n == 'se' else '01'[(j + bits) % 2]) for j, n in enumerate(d.pis))
             return q
         stil_case(res, case(markers, d.pis, d.pos, [two_cycle(0), one_cycle(1), two_cycle(2), one_cycle(3)], loc=True))
+        # unassigned primary inputs in one or both time frames
+        def two_cycle_n(bits):
+            q = two_cycle(bits)
+            data = [j for j, n in enumerate(d.pis) if n not in ('clk', 'se')]
+            lp, cp = list(q['launch_pi']), list(q['capture_pi'])
+            for t, j in enumerate(data):
+                lp[j] = 'N1N0'[(t + bits) % 4]; cp[j] = '1NNN'[(t + bits) % 4]
+            q['launch_pi'], q['capture_pi'] = ''.join(lp), ''.join(cp)
+            return q
+        stil_case(res, case(markers, d.pis, d.pos, [two_cycle_n(0), two_cycle_n(1), two_cycle_n(2)], loc=True))
         stil_case(res, case(markers, d.pis, d.pos, [one_cycle(2), two_cycle(1), one_cycle(0)], loc=True))
         # launch-on-capture
         clk = None
@@ -440,6 +457,7 @@ def replay(case):
 
 
 def finish(agg, tier):
+    if not agg.counters.get('loc_pi_unassigned'): raise common.HarnessError('vacuity guard: no unassigned primary input in a launch-on-capture pattern')
     if not agg.counters.get('second_circuit_cases'): raise common.HarnessError('vacuity guard: no second circuit with another order')
     if not agg.counters.get('loc_init_filter_cases'): raise common.HarnessError('vacuity guard: init_filter never exercised')
     if not agg.counters.get('loc_single_cycle_patterns'): raise common.HarnessError('vacuity guard: no single-cycle pattern in a launch-on-capture set')
